@@ -13,6 +13,8 @@ import time
 import traceback
 
 sys.path.insert(0, os.path.dirname(os.path.abspath(__file__)))
+import covhook  # noqa: E402
+covhook.start()
 from common import MachineryError, Report, VERIF, fresh, validate_trace, NCPU  # noqa: E402
 
 HARNESS_ONLY = ("call", "feat", "expect", "site", "note", "skip", "fname", "hashseed", "_verdict", "derived")
